@@ -51,7 +51,7 @@ fn from_parse<I: ParseInst>(s: &str, st: &mut Stats) -> Result<(), String> {
     rebuild::<I>(&p, &format!("parsed from {s:?}"), st)
 }
 
-fn parse_all(s: &str, st: &mut Stats) -> Result<(), String> {
+pub fn parse_all(s: &str, st: &mut Stats) -> Result<(), String> {
     from_parse::<IStr>(s, st)?;
     from_parse::<ISmall>(s, st)?;
     from_parse::<ITyped>(s, st)
@@ -84,7 +84,7 @@ fn o_program(c: &ProgramCase, st: &mut Stats) -> Result<(), String> {
     }
 }
 
-pub const NAME_ALPHABET: &[char] = &['a', 'A', '1', '-', '_', '.', 'É', 'ǅ'];
+pub const NAME_ALPHABET: &[char] = &['a', 'A', '1', '-', '_', '.', 'É', 'ǅ', 'é'];
 
 #[derive(Clone, Debug, Serialize, Deserialize)]
 pub struct NameCase {
